@@ -21,6 +21,8 @@
  *   commit  what fossil collection releases from a history is below the announced GVT and is, event by event and state
  *           hash by state hash, the next part of the sequential execution of that LP (C03, C13)
  *   msgs    no message is freed twice / freed while queued, in flight or in a history (C11)
+ *   acct    every process_msg() call reported to the GVT module a timestamp <= everything it put in flight (C04, the half of
+ *           the GVT safety argument that lives in lp/process.c)
  * and at quiescence (nothing in flight, nothing queued): committed + remaining history of every LP is the sequential
  * execution and its state is the sequential end state (C01/C02/C03). */
 #include "../engine/rsched.h"
@@ -55,7 +57,7 @@ extern void msg_allocator_free(struct lp_msg *msg);
 extern struct lp_msg *msg_allocator_alloc(unsigned payload_size);
 
 enum { C_STEPS, C_DELIVER, C_ROLLBACK, C_ANTI, C_GVT, C_FOSSIL_MSGS, C_COMMIT_CHECKED, C_QUIESCENT, C_ROLLBACK_AFTER_FOSSIL, C_TO_POS0,
-	C_HELD_MAX, C_ANTI_UNPROCESSED, C_SILENT };
+	C_HELD_MAX, C_ANTI_UNPROCESSED, C_SILENT, C_ACCT_CHECKED, C_ANTI_CASCADE };
 
 static const char *P_model = "L2_I1,2_R2,1,7_P5_K100_M0_G0_H4_C2_S0";
 static int P_ckpt = 1, P_glow = 0, P_maxg = 1000;
@@ -121,6 +123,7 @@ static int in_process; /* a process_msg() call is running */
 static struct lp_msg *cur_msg;
 static lp_id_t cur_dest; /* cur_msg may be released by process_msg(): what the log needs is copied at extraction */
 static char cur_str[160];
+static int cur_was_anti;
 static unsigned ndisp;
 
 static void h_dispatch(lp_id_t me, simtime_t now, unsigned type, const void *pl, unsigned size, void *st)
@@ -159,10 +162,36 @@ static void commit_one(const struct lp_msg *m, uint64_t plh, int has_h, uint64_t
 }
 
 /* ---- redirected calls ---- */
+/* GVT accounting contract of lp/process.c: by the time process_msg() returns, the smallest timestamp it reported through
+ * gvt_on_msg_extraction() is <= the timestamp of everything it sent to another worker during the call (the receiver may
+ * already have sampled its queue for the running reduction, so only the sender's accumulator can cover such a message) */
+static double call_reported, call_sent;
+static char call_sent_str[128];
+extern void gvt_on_msg_extraction(simtime_t msg_t);
+void vw_gvt_on_msg_extraction(simtime_t t)
+{
+	if(t < call_reported)
+		call_reported = t;
+	gvt_on_msg_extraction(t);
+}
 /* fossil_lp_collect() releases the committed part of a history back to front: buffered, checked front to back */
 static struct { struct lp_msg m; uint64_t plh; int has_h; uint64_t h_after; } cbuf[MAXREC];
 static int ncbuf, in_collect;
 static int n_queue; /* messages inside the real queue */
+
+extern void fossil_lp_collect(struct lp_ctx *lp);
+void vw_fossil_lp_collect(struct lp_ctx *lp)
+{
+	fossil_happened[lp - lps] = 1;
+	rs_logf("    LP %lu collects at GVT %g (history %u entries)\n", (unsigned long)(lp - lps), gvt_now, (unsigned)array_count(lp->p.p_msgs));
+	ncbuf = 0;
+	in_collect = 1;
+	fossil_lp_collect(lp);
+	in_collect = 0;
+	while(ncbuf--)
+		commit_one(&cbuf[ncbuf].m, cbuf[ncbuf].plh, cbuf[ncbuf].has_h, cbuf[ncbuf].h_after);
+	ncbuf = 0;
+}
 
 static void real_insert(struct lp_msg *m, struct rec *r)
 {
@@ -181,6 +210,10 @@ void vw_msg_queue_insert(struct lp_msg *m)
 	else {
 		r->where = W_POOL;
 		r->seq = seq_ctr++;
+		if(in_process && m->dest_t < call_sent) {
+			call_sent = m->dest_t;
+			snprintf(call_sent_str, sizeof call_sent_str, "%s", msg_str(m));
+		}
 		rs_logf("    in flight: %s pl=%016lx\n", msg_str(m), (unsigned long)vm_payload_hash(m->pl, m->pl_size));
 	}
 }
@@ -191,6 +224,7 @@ struct lp_msg *vw_msg_queue_extract(void)
 	cur_msg = m;
 	if(m) {
 		cur_dest = m->dest;
+		cur_was_anti = (atomic_load_explicit(&m->flags, memory_order_relaxed) & MSG_FLAG_ANTI) != 0;
 		snprintf(cur_str, sizeof cur_str, "%s pl=%016lx", msg_str(m), (unsigned long)vm_payload_hash(m->pl, m->pl_size));
 	}
 	if(m) {
@@ -245,19 +279,6 @@ void vw_fossil_msg_allocator_free(struct lp_msg *m)
 }
 
 static unsigned nrollbacks;
-extern void fossil_lp_collect(struct lp_ctx *lp);
-void vw_fossil_lp_collect(struct lp_ctx *lp)
-{
-	fossil_happened[lp - lps] = 1;
-	rs_logf("    LP %lu collects at GVT %g (history %u entries)\n", (unsigned long)(lp - lps), gvt_now, (unsigned)array_count(lp->p.p_msgs));
-	ncbuf = 0;
-	in_collect = 1;
-	fossil_lp_collect(lp);
-	in_collect = 0;
-	while(ncbuf--)
-		commit_one(&cbuf[ncbuf].m, cbuf[ncbuf].plh, cbuf[ncbuf].has_h, cbuf[ncbuf].h_after);
-	ncbuf = 0;
-}
 extern array_count_t model_allocator_checkpoint_restore(struct mm_state *self, array_count_t ref_i);
 array_count_t vw_model_allocator_checkpoint_restore(struct mm_state *self, array_count_t ref_i)
 {
@@ -315,8 +336,20 @@ static void do_process(const char *what)
 	unsigned rb0 = nrollbacks, d0 = ndisp;
 	in_process = 1;
 	cur_msg = NULL;
+	call_reported = call_sent = SIMTIME_MAX;
 	process_msg();
 	in_process = 0;
+	if(call_sent < call_reported) {
+		if(call_reported == SIMTIME_MAX)
+			rs_fail("GVT accounting: a process_msg() call put %s in flight without reporting any extraction to the GVT module: a reduction "
+				"running now can return a GVT above it", call_sent_str);
+		rs_fail("GVT accounting: a process_msg() call put %s in flight but reported only an extraction at t=%g to the GVT module",
+		    call_sent_str, call_reported);
+	}
+	if(call_sent < SIMTIME_MAX)
+		rs_count(C_ACCT_CHECKED, 1);
+	if(call_sent < SIMTIME_MAX && cur_was_anti)
+		rs_count(C_ANTI_CASCADE, 1); /* an extracted anti-message made this call put something (anti-messages) in flight */
 	rs_count(C_STEPS, 1);
 	if(!cur_msg)
 		return;
@@ -594,7 +627,7 @@ static const struct rs_harness H = {
     .digest = digest,
     .describe = describe,
     .counter_names = {"steps", "deliveries", "rollbacks", "anti_messages_delivered", "gvt_announcements", "fossil_released_msgs", "commits_checked",
-	"quiescent_ends", "rollbacks_after_fossil", "rollbacks_to_kept_checkpoint", "max_in_flight", "anti_for_unprocessed", "silent_executions"},
+	"quiescent_ends", "rollbacks_after_fossil", "rollbacks_to_kept_checkpoint", "max_in_flight", "anti_for_unprocessed", "silent_executions", "sends_accounting_checked", "anti_cascade"},
 };
 
 int main(int argc, char **argv)
